@@ -35,11 +35,11 @@ LEVEL = "fault_enumeration"
 RULE = (
     "case = (protocol spec, peer script, delivery schedule); non-trivial = run with >= 2 remote messages, or >= 1 reply "
     "delivered in >= 2 chunks across a virtual tick, or a fault injected after >= 1 successful exchange; distinct by "
-    "hash of (spec, script, schedule)"
+    "hash of (spec, script, schedule); oracle (5): in a fault-free run valid remote data is never rejected"
 )
 ASSUMPTIONS = [
     "logical arrival orders under a harness-owned virtual clock are covered; data races between real threads inside add_receive/clear_by_party are not (no thread runs in the harness)",
-    "the external parties speak when the protocol allows only external senders next (or at generated interjection points)",
+    "the external parties speak when the protocol allows only external senders next; with a pipeline step they put the next message(s) on the wire without waiting for the fuzzer (first fragments keep the order of the interaction, one party's messages stay in order, everything else may interleave)",
 ]
 
 CONSTRAINTS = {"m1": ("int(<m1>.<v>) % 2 == 0", lambda v: v % 2 == 0), "m2": ("int(<m2>.<v>) >= 10", lambda v: v >= 10)}
